@@ -48,6 +48,33 @@ def run(ctx):
         check(res, rec)
         k += 1
     res.rule("I1-STEP/explicit", k)
+    # two links constructed from one and the same vertices= list object, then a vertex joins one of them
+    from sa.ae import Seq as _Seq, Unknown as _Unknown
+    for call in ("add_vertex", "add_to_link", "unlink_from"):
+        try:
+            h.reset()
+            V = {r: h.vertex(r) for r in "abc"}
+            src = _Seq([V["a"], V["b"]], "list")
+            l1, l2 = h.new("SymLink", "H1", vertices=src), h.new("SymLink", "H2", vertices=src)
+            h.settle()
+            if call == "add_vertex":
+                out = h.call(h.I.getattr(l1, "add_vertex"), V["c"])
+            elif call == "add_to_link":
+                out = h.call(h.I.getattr(V["c"], "add_to_link"), l1)
+            else:
+                out = h.call(h.I.getattr(l1, "unlink_from"), V["a"])
+            st = {"vlinks": {r: [x.name for x in h.getattr(v, "links").value.items] for r, v in V.items()},
+                  "lverts": {l.name: [x.name for x in h.getattr(l, "vertices").value.items] for l in (l1, l2)}}
+            bad = struct.i1_violations(st)
+        except _Unknown as u:
+            res.ob(False)
+            res.undecide(f"two links from one vertices= list, {call}: {u}")
+            continue
+        res.ob(not bad, sig=("shared-vertices-argument", call))
+        if bad:
+            res.violation("I1-STEP", "edgegraph.structure.link.Link.__init__", "one-list-object-passed-to-two-constructors",
+                          f"src = [a, b]; H1 = Link(vertices=src); H2 = Link(vertices=src); then {call} on H1 with {'c' if call != 'unlink_from' else 'a'}: {'; '.join(bad[:3])}",
+                          replay="from edgegraph.structure import *\na, b, c = Vertex(), Vertex(), Vertex()\nsrc = [a, b]\nh1, h2 = Link(vertices=src), Link(vertices=src)\nh1.add_vertex(c)\nprint(c in h2.vertices, h2 in c.links)")
     from rules import hist
     hist.run(ctx, res, 'C01')       # composition: histories through the public API against the reference model (rules/hist.py)
     hist.run_sequences(ctx, res, "C01", "links", 4 if ctx.thorough else 3)      # every sequence of that many operations on one link; I1 also after calls that raised
